@@ -231,10 +231,10 @@ pub fn run(ctx: Ctx, mode: Mode) -> ! {
     let (root, w, x) = build_root(true);
     // (depth of the main exploration, depth of the engine-checker exploration, wall cap)
     let (depth, full_depth, cap_s) = match (mode, ctx.quick()) {
-        (Mode::C03, true) => (3, 0, 45.0),
-        (Mode::C03, false) => (4, 0, 900.0),
-        (Mode::C04, true) => (3, 2, 40.0),
-        (Mode::C04, false) => (4, 3, 700.0),
+        (Mode::C03, true) => (4, 0, 45.0),
+        (Mode::C03, false) => (5, 0, 900.0),
+        (Mode::C04, true) => (4, 2, 40.0),
+        (Mode::C04, false) => (5, 3, 700.0),
         (Mode::C05, true) => (3, 2, 45.0),
         (Mode::C05, false) => (4, 3, 900.0),
     };
